@@ -88,6 +88,10 @@ var table = []routeDef{
 	{method: "GET", pattern: "/c/:n", hid: 9, kind: "param", intParam: "n"},
 	{method: "GET", pattern: tenParams, hid: 10, kind: "param"},
 	{method: "GET", pattern: "/star*", hid: 16, kind: "treestatic"},
+	// two routes that share a parameter position under different names, the more specific one constrained: a request that
+	// fails the constraint is served by the other route and must see that route's names only
+	{method: "GET", pattern: "/r/:owner/:repo", hid: 33, kind: "param"},
+	{method: "GET", pattern: "/r/:id/settings", hid: 34, kind: "param", intParam: "id"},
 	// behind recovery + basicauth: the handler runs only with valid credentials; a panic in it is recovered inside the chain
 	{method: "GET", pattern: "/ba/:id", hid: 40, kind: "param", chain: "auth"},
 	// a catch-all next to a parameter branch below the same prefix: the tree tries the parameter branch first and falls
@@ -284,7 +288,7 @@ type Case struct {
 }
 
 // names the probe asks for: every parameter name of the table plus names no route declares
-var probeNames = []string{"id", "x", "n", "filepath", "a", "b", "h", "i", "j", "y", "z", "stale", "zz", "p9"}
+var probeNames = []string{"id", "x", "n", "filepath", "a", "b", "h", "i", "j", "y", "z", "stale", "zz", "p9", "owner", "repo"}
 
 type probeView struct {
 	obj        uintptr
@@ -1468,6 +1472,7 @@ func genReq(r *hx.Rand, c Cfg) Req {
 		{"catchall-vs-param", "GET", "/f/" + v(r) + hx.Pick(r, []string{"/meta", "/raw", "", "/rev/" + v(r) + "/diff", "/rev/" + v(r) + "/blame", "/rev"})},
 		{"non-origin-target", hx.Pick(r, []string{"OPTIONS", "GET"}), hx.Pick(r, []string{"*", "relative", "host.example:443"})},
 		{"basicauth", "GET", "/ba/" + v(r)},
+		{"sibling-names", "GET", hx.Pick(r, []string{"/r/acme/settings", "/r/12/settings", "/r/acme/" + v(r), "/r/7/" + v(r)})},
 		// parameter values with control characters (a decoded %0A): whatever the framework does with them, a string it
 		// handed out must not change afterwards
 		{"ctl-param", "GET", hx.Pick(r, []string{"/d/ali\nce", "/d/bob\tby", "/d/a\nb/e/c\rd", "/w/x\ny/z"})},
@@ -1644,6 +1649,11 @@ func witnesses() []Case {
 			{Method: "GET", Path: "/", Class: "static"},
 			{Method: "GET", Path: "/d/7", Dirty: []Dirty{{Kind: "Y", K: "zz", V: "leak"}}, Class: "param"},
 			{Method: "GET", Path: "/s/a", Class: "static"},
+		}},
+		{C: Cfg{}, H: []Req{
+			{Method: "GET", Path: "/r/acme/settings", Class: "sibling-names"},
+			{Method: "GET", Path: "/r/12/settings", Class: "sibling-names"},
+			{Method: "GET", Path: "/r/acme/settings", Class: "sibling-names"},
 		}},
 		// two routers on the one pool: the second trusts the peer as a proxy; a context that keeps the other router's
 		// pointer answers ClientIP() with the other router's configuration
